@@ -32,7 +32,7 @@ class CmpProp(Prop):
         if ftype == 'F':
             # a function pointer: compared, ordered and hashed through one `#[ord(key = ..)]` for every trait
             return {'ord': rng.choice(['key', 'key+reverse'])}
-        if ftype in ('P', 'A', 'W'):
+        if ftype in ('P', 'A', 'W', 'I'):
             c = {'ord': rng.choice(['-', '-', 'reverse']), 'partial_ord': rng.choice(['-', 'reverse', '-']),
                  'hash': rng.choice(['-', '-', 'ignore'])}
             c = G.relevant_combo(traits, c)
@@ -67,6 +67,8 @@ class CmpProp(Prop):
                     ft = 'P' if (allow_p and rng.random() < 0.15) else 'A' if rng.random() < 0.1 else 'F' if rng.random() < 0.08 else 'u8'
                     if self.weird_order_type and rng.random() < 0.12:
                         ft = 'W'
+                    elif rng.random() < 0.08:
+                        ft = 'I'
                     fl.append((ft, self.pick_combo(rng, traits, ft, pool)))
                 variants.append((rng.random() < 0.5, fl))
             mode = 'attr' if rng.random() < 0.5 else 'derive'
@@ -114,6 +116,8 @@ class CmpProp(Prop):
         'macro-keys': {'hash': ('( :: core :: matches ! ( $ , 1 | 3 ) as u8 )', lambda x: int(x in (1, 3))),
                        'eq': ('( :: core :: matches ! ( $ , 0 | 2 ) as u8 )', lambda x: int(x in (0, 2))),
                        'partial_ord': ('( :: core :: matches ! ( $ , 2 | 3 ) as u8 )', lambda x: int(x in (2, 3)))},
+        # a string literal that merely CONTAINS the placeholder character is a constant `&str` key
+        'string-keys': {'hash': ('"$"', lambda x: 'b[36];u8:255;'), 'eq': ('"$ + 1"', lambda x: 'b[36, 32, 43, 32, 49];u8:255;')},
     }
 
     def cases(self, tier, rng):
